@@ -127,7 +127,13 @@ func runC14(ctx *h.Ctx) int {
 		rp, rerr := spec.Resolve(prog, prog.Switches)
 		pr := layoutOf(k, prog, 0.3)
 		k.SetSource(pr.Src)
-		res := h.Compile(pr.Src, optsOf(prog, k.R.IntN(2) == 0))
+		oo := optsOf(prog, k.R.IntN(2) == 0)
+		if k.R.IntN(3) == 0 {
+			// with line markers (the CLI default): the blocks are the same, with marker lines in between
+			oo.LM, oo.Path = true, "maps/in.pory"
+			k.Count("files_compiled_with_line_markers", 1)
+		}
+		res := h.Compile(pr.Src, oo)
 		k.Count("evaluations", 1)
 		if !res.OK() {
 			k.Count("rejected", 1)
@@ -217,6 +223,48 @@ func runC14(ctx *h.Ctx) int {
 	})
 	// multipliers outside 1..9999 must be rejected
 	badMults := []string{"0", "-1", "-9999", "10000", "0x2710", "99999", "0x0", "4294967296", "99999999999999999999", "18446744073709551617", "-0x1"}
+	// several maximal lists in ONE script / one mapscripts statement: each block is legal on its own, and legality
+	// of one block does not depend on the others
+	ctx.RunCases("many-large-lists", ctx.N(12, 200), func(k *h.Case) {
+		g := spec.NewGen(k.R, spec.Profile{})
+		prog := g.Prog
+		n := 6 + k.R.IntN(3)
+		sc := &spec.Script{ID: prog.NewID(), Name: g.Name("ScrBig"), Body: &spec.Block{ID: prog.NewID()}}
+		var want [][]string
+		for i := 0; i < n; i++ {
+			step := fmt.Sprintf("walk_%d", i)
+			mult := []string{"9999", "0x270F", "9998", "5000"}[k.R.IntN(4)]
+			c := &spec.Cmd{ID: prog.NewID(), Name: g.Name("applymovement"), Args: []*spec.Arg{{Toks: []string{fmt.Sprint(i)}}, {Moves: []*spec.ListElem{{ID: prog.NewID(), Name: "face_down"}, {ID: prog.NewID(), Name: step, Mult: mult}}}}}
+			sc.Body.Stmts = append(sc.Body.Stmts, &spec.CmdStmt{Cmd: c})
+			want = append(want, expandStepsSkipCommas(c.Args[1].Moves))
+		}
+		prog.Items = append(prog.Items, sc)
+		src := spec.Source(prog)
+		k.SetSource(src)
+		res := h.Compile(src, optsOf(prog, k.R.IntN(2) == 0))
+		k.Count("evaluations", 1)
+		if !res.OK() {
+			rejectedValid(k, prog, res, true)
+			return
+		}
+		f := asm.Parse(res.Out)
+		for i, w := range want {
+			lbl := fmt.Sprintf("%s_Movement_%d", sc.Name, i)
+			defs := f.Labels[lbl]
+			if len(defs) != 1 {
+				k.Violation("large-list-label", fmt.Sprintf("hoisted movement %q is defined %d times", lbl, len(defs)), nil)
+				return
+			}
+			got := movementBlock(f, defs[0])
+			if !eqStrings(got, append(append([]string{}, w...), "step_end")) {
+				k.Violation("large-list-content", fmt.Sprintf("hoisted movement %s: %d lines emitted, expected %d steps + step_end", lbl, len(got), len(w)), nil)
+				return
+			}
+			k.Count("steps_checked", int64(len(w)))
+		}
+		k.Count("scripts_with_many_large_lists", 1)
+		k.Nontrivial("big", n)
+	})
 	ctx.RunCases("bad-multipliers", ctx.N(600, 10000), func(k *h.Case) {
 		g := spec.NewGen(k.R, spec.Profile{})
 		prog := g.Prog
